@@ -26,6 +26,16 @@ CLAIMS = {
   'text': 'Partial, structural: decides which generated constant reaches which consumer - build.rs maps each documented RUST_BIGDECIMAL_* variable to exactly one generated const; Context::default/RoundingMode::default return only those consts; sqrt/cbrt/inverse pass a Context derived only from them; round(n) uses the default mode; every Div kernel hands DEFAULT_PRECISION to impl_division whose loop consumes it; exp\'s result precision is DEFAULT_PRECISION; Display passes the two thresholds in order, the dispatcher compares them, no other literal threshold orders a scale-derived value, the padding limit is compared; formatting rounds with the default mode and the number\'s sign. Because the rules do not depend on the constants\' values one analysis covers all configurations (thorough re-extracts under two other environments to confirm). Numeric agreement of default and explicit-context operations is NOT decided.',
   'note': TRUST + ' Provenance is flow-insensitive per local and treats unlisted std callees as opaque sources.',
  },
+ 'C06': {
+  'technique': 'static analysis: decision-table extraction from the CFG of the digit-pair primitive, exhaustive comparison with the documented mode definitions; writer/reader cross-check of the lazy tail flag; provenance of the default mode',
+  'text': 'Partial, structural: (1) the complete decision table of RoundingMode::round_pair is read off its CFG and equals the documented definition for every one of the 4200 (mode, sign, digit pair, tail flag) inputs - exhaustive over the abstract cells, the function is never executed; (2) needs_trailing_zeros never claims the tail is irrelevant where round_pair depends on it; (3) round(n) rounds with the configured default mode. NOT decided: carry propagation and the position arithmetic of with_scale_round.',
+  'note': TRUST + ' Oracle: the RoundingMode documentation (IEEE-754 / java.math.RoundingMode semantics).',
+ },
+ 'C14': {
+  'technique': 'static analysis: constant evaluation of source literal tables against 5^k; FpCategory decision tables from the CFG; who-may-call rule over the resolved call graph',
+  'text': 'Partial, structural: the hard-coded multi-word constants equal 5^149 and 5^1074 (the scale literals they are used with); NaN/Infinite map to Err, Subnormal to the subnormal routine, Normal/Zero to the normal routine for f32 and f64 (exhaustive over FpCategory); the unchecked converters are reachable only through those classifiers and every TryFrom/FromPrimitive float entry goes through them. NOT decided: the bit-field arithmetic, exactness of the conversion, all of to_f64.',
+  'note': TRUST + ' BigUint::from_slice assembles little-endian u32 words.',
+ },
 }
 _PENDING = 'check not built yet in this commit (implementation in progress, see DESIGN.md section 8)'
 NOT_APPLICABLE = {('C%02d' % i): _PENDING for i in range(1, 21) if ('C%02d' % i) not in CLAIMS}
